@@ -43,6 +43,29 @@ NAMES = {
     ("C19", "1"): ("reshape-to-header-shape", []), ("C19", "2"): ("masked-values-approximate-blank", []),
     ("C20", "1"): ("check-fit-input-size-not-shape", []), ("C20", "2"): ("longitude-continuity-asarray-region", []),
 }
+NAMES2 = {
+    ("C01", "1"): ("vector-data-hstack", ["C04"]), ("C01", "2"): ("spline-force-coords-first-fit-only", ["C20"]),
+    ("C02", "1"): ("weights-normalised-to-max", []), ("C02", "2"): ("weights-dropped-when-undamped", []),
+    ("C03", "1"): ("safe-log-kernel-minus-one-at-zero", []), ("C03", "2"): ("unstable-argsort-monomial-order", []),
+    ("C04", "1"): ("vector-data-hstack", ["C01"]), ("C04", "2"): ("scipygridder-points-take-easting-dtype", []),
+    ("C05", "1"): ("profile-coordinates-not-inverse-projected", []), ("C05", "2"): ("class-level-grid-kwargs-dict", []),
+    ("C06", "1"): ("chain-filter-returns-last-step", []), ("C06", "2"): ("chain-unweighted-stays-unweighted", []),
+    ("C07", "1"): ("falsy-extra-coords-dropped", ["C13"]), ("C07", "2"): ("profile-last-point-overwritten", []),
+    ("C08", "1"): ("block-split-adjust-not-forwarded", []), ("C08", "2"): ("pixel-centres-by-arange", ["C07"]),
+    ("C09", "1"): ("centre-coordinates-reduced-after-move", []), ("C09", "2"): ("labels-recoded-before-centres", []),
+    ("C10", "1"): ("constant-weights-shortcut-before-uncertainty", []), ("C10", "2"): ("v2w-recursion-drops-tol", []),
+    ("C11", "1"): ("isin-assume-unique", []), ("C11", "2"): ("random-state-generator-at-init", []),
+    ("C12", "1"): ("score-without-ravel", []), ("C12", "2"): ("select-label-indexing-for-series", []),
+    ("C13", "1"): ("line-coordinates-arange-overshoot", ["C07"]), ("C13", "2"): ("maxabs-negated-min-unsigned", []),
+    ("C14", "1"): ("expanding-window-assumes-ascending", []), ("C14", "2"): ("rolling-window-nonzero-drops-centre-point", []),
+    ("C15", "1"): ("median-distance-central-columns", []), ("C15", "2"): ("knn-k-capped-at-n-minus-1", []),
+    ("C16", "1"): ("project-grid-hull-over-nan-nodes", []), ("C16", "2"): ("project-grid-spacing-from-data-region", []),
+    ("C17", "1"): ("east-zero-becomes-360", []), ("C17", "2"): ("full-globe-early-return-skips-coordinate-check", []),
+    ("C18", "1"): ("extra-coords-default-dims", []), ("C18", "2"): ("square-extra-coords-transposed", []),
+    ("C19", "1"): ("loadtxt-max-rows", []), ("C19", "2"): ("close-before-validation", []),
+    ("C20", "1"): ("spline-force-coords-into-param", []), ("C20", "2"): ("vector-predict-checks-components", []),
+}
+PREFIX = ""
 ENV1 = {"OMP_NUM_THREADS": "1", "OPENBLAS_NUM_THREADS": "1", "MKL_NUM_THREADS": "1"}
 
 
@@ -53,7 +76,7 @@ def sh(cmd, **kw):
 def stage_tests(item, run_tests=True):
     prop, k = item
     src = f"{SRC}/{prop}/{k}"
-    wt = f"/tmp/seedwt_{prop}_{k}"
+    wt = f"/tmp/seedwt{PREFIX.strip('-')}_{prop}_{k}"
     sh(f"git -C /repo worktree remove --force {wt}")
     sh(f"git -C /repo worktree add -q --detach {wt} HEAD")
     out = {"property": prop, "k": k, "worktree": wt}
@@ -111,14 +134,15 @@ def record(out):
     ok = out["demo_clean_rc"] == 0 and out["demo_mutant_rc"] != 0 and out["apply_rc"] == 0 and not out.get("baseline_missing", ["?"])
     if not ok:
         return False
-    dst = os.path.join(VERIF, "seeded", f"{prop}-{name}")
+    dst = os.path.join(VERIF, "seeded", f"{PREFIX}{prop}-{name}")
     os.makedirs(dst, exist_ok=True)
     shutil.copy(f"{src}/patch.diff", f"{dst}/patch.diff")
     shutil.copy(f"{src}/demo.py", f"{dst}/demo.py")
     notes = open(f"{src}/notes.md").read() if os.path.exists(f"{src}/notes.md") else ""
     head = sh("git -C /repo log -1 --format=%h").stdout.strip()
     meta = {"property": prop,
-            "origin": "fresh sub-agent given only the property text and its own scratch worktree of /repo (nothing from /verif)",
+            "origin": "fresh sub-agent given only the property text and its own scratch worktree of /repo (nothing from /verif)"
+                      + ("; second wave: also told which mechanisms the first wave had used, to force different ones" if PREFIX else ""),
             "needs_to_manifest": notes[:2500],
             "confirmed": {"repo_head": head, "applies_cleanly": True, "demo_passes_without_change": True, "demo_fails_with_change": True,
                           "pinned_baseline_tests_still_pass": True, "tests_passed_with_change": out.get("tests_passed"),
@@ -132,8 +156,11 @@ def record(out):
 
 
 def main():
-    global SRC
+    global SRC, NAMES, PREFIX
     args = sys.argv[1:]
+    if "--wave2" in args:
+        SRC, NAMES, PREFIX = "/tmp/mutout2", NAMES2, "w2-"
+        args.remove("--wave2")
     jobs, only, run_tests = 4, None, True
     i = 0
     while i < len(args):
@@ -161,7 +188,8 @@ def main():
                 "baseline_missing": out.get("baseline_missing"), "caught": {c: v["caught"] for c, v in out["checks"].items()}}
         summary.append(line)
         print(json.dumps(line), flush=True)
-    json.dump(summary, open(os.path.join(VERIF, "seeded", "SUMMARY.json"), "w"), indent=1) if run_tests and only is None else None
+    if run_tests and only is None:
+        json.dump(summary, open(os.path.join(VERIF, "seeded", f"{PREFIX}SUMMARY.json"), "w"), indent=1)
 
 
 if __name__ == "__main__":
